@@ -76,3 +76,17 @@ Theorem C02_nonvacuous :
   expand_by_wrapper (render_tmpl [Lit [97]; Var s_v; Esc s_v]) (env1 w_hostile)
   = Single ([97] ++ w_hostile ++ [36; 123; 118; 125]).
 Proof. exact verbatim_example. Qed.
+
+(* ---- index-faithful model (ExpansionIx.v): expand_by_wrapper has no partial operation of its own
+   (char iterator, pushes, prefix_index only 0/1); the index arithmetic is in the re-parse of a spread
+   value, modelled by the index-faithful parser (vector, usize indices, explicit Panic) ------------- *)
+Require Import DS.ParserIx DS.ExpansionIx DS.ExpansionIxProof.
+
+(* every written argument (any string over all scalar values), every environment: no panic *)
+Theorem C02_ix_total : forall value variables, expand_by_wrapper_ix value variables <> XPanic.
+Proof. exact expand_ix_total. Qed.
+(* and the index model equals the suffix model, so C02_single / _spread / _words / ... transfer *)
+Theorem C02_ix_refines : forall value variables,
+  expand_by_wrapper_ix value variables = XOk (expand_by_wrapper value variables).
+Proof. exact expand_ix_refines. Qed.
+(* bind_command_arguments over it: props/C02ix.v *)
